@@ -1185,7 +1185,10 @@ def rt2(ctx):
         b = lib.body(fn)
         for bi, t in b.calls():
             cp = callee_path(t) or ""
-            if "::sort" not in cp:
+            # `min_by_key` / `min_by` keep the FIRST of several minima: over the same ordered candidates that is the element a
+            # stable sort puts first (whether the iteration is ordered is PUR-2's business)
+            first_min = cp.endswith(("Iterator::min_by_key", "Iterator::min_by"))
+            if "::sort" not in cp and not first_min:
                 continue
             n += 1
             stable = "unstable" not in cp
